@@ -46,25 +46,33 @@ for line in out.splitlines():
             in_fail = False
 passed = seen - failed
 missing = sorted(w for w in want if w not in passed)
-# timing-sensitive tests (write_op_log_should_be_fast …) can fail under load: retry each once, alone
+# timing-sensitive tests (write_op_log_should_be_fast …) can fail under load: retry each alone, up to eight times
 still = []
-for name in missing:
+import time as _time
+
+
+def _retry_alone(name):
     parts = name.split('::')
     if parts[0] == 'nun-db' and len(parts) > 2 and '-' not in parts[1]:
         tn = '::'.join(parts[1:])
         r = subprocess.run(['cargo', 'test', '--offline', '--lib', tn, '--', '--exact'], cwd=repo, env=env,
                            stdout=subprocess.PIPE, stderr=subprocess.STDOUT, text=True)
-        if re.search(r'test result: ok\. 1 passed', r.stdout):
+        return bool(re.search(r'test result: ok\. 1 passed', r.stdout))
+    tn = parts[-1]
+    r = subprocess.run(['cargo', 'test', '--offline', '--test', parts[1], tn], cwd=repo, env=env,
+                       stdout=subprocess.PIPE, stderr=subprocess.STDOUT, text=True)
+    return bool(re.search(r'test result: ok\. [1-9]', r.stdout))
+
+
+for name in missing:
+    for attempt in range(8):
+        if attempt:
+            _time.sleep(5)
+        if _retry_alone(name):
             print('  (passed on retry alone: %s)' % name)
-            continue
+            break
     else:
-        tn = parts[-1]
-        r = subprocess.run(['cargo', 'test', '--offline', '--test', parts[1], tn], cwd=repo, env=env,
-                           stdout=subprocess.PIPE, stderr=subprocess.STDOUT, text=True)
-        if re.search(r'test result: ok\. [1-9]', r.stdout):
-            print('  (passed on retry alone: %s)' % name)
-            continue
-    still.append(name)
+        still.append(name)
 missing = still
 print('passed %d, failed %d, stable_pass %d, stable tests not passing: %d' % (len(passed), len(failed), len(want), len(missing)))
 for mname in missing[:40]:
